@@ -60,6 +60,8 @@ pub fn rerun(line: &str) -> Option<String> {
                 sc.split(';').map(|t| { let (b, l) = t.split_once(':')?; Some((usize::from_str_radix(b, 16).ok()?, l.parse().ok()?)) }).collect() };
             Some(crate::gen::pushbits_line(v.parse().ok()?, &script?))
         }
+        ["selecth", hx, e0, e, md, v] => Some(crate::gen::selecth_line(
+            &unhex(hx), e0.parse().ok()?, e.parse().ok()?, md.parse().ok()?, v.parse().ok()?)),
         ["uline", nibs] => Some(crate::unitops::uline_line(nibs)),
         ["usq", v, nibs] => Some(crate::unitops::usq_line(v.parse().ok()?, nibs)),
         ["ustructure", e, v, hx] => Some(crate::unitops::ustructure_line(e.parse().ok()?, v.parse().ok()?, &unhex(hx))),
